@@ -398,6 +398,9 @@ func runC10(c C10Case) *Result {
 						return res
 					}
 					m2 := u.NewMapPollard(in.M.Full)
+					if in.Cfg.Ext {
+						extStores(&m2)
+					}
 					if _, err := m2.Read(bytes.NewReader(buf.Bytes())); err != nil {
 						res.class("setup-failed")
 						return res
